@@ -55,6 +55,75 @@ func c17SwitchCases(s *source, e *emitter, rel, goName, leanName string) {
 	e.stringList(leanName, "cases of the first switch of `"+goName+"` in "+rel, items)
 }
 
+// c17Detail lists, in source order, what the small forwarding functions of the property's path do: every call
+// expression with its full argument list, every if-condition, every assignment to a struct field, every return.
+// Closures are entered.  (A dropped `opts...`, a changed argument, a removed UseNumber, a moved ExpandEnv shows up.)
+func c17Detail(s *source, e *emitter, rel, goName, leanName string) {
+	fd := s.findFunc(rel, goName)
+	if fd == nil {
+		e.errors = append(e.errors, "function "+goName+" not found in "+rel)
+		e.stringList(leanName, "MISSING: "+goName, []string{"MISSING"})
+		return
+	}
+	var items []string
+	ast.Inspect(fd.Body, func(n ast.Node) bool {
+		switch x := n.(type) {
+		case *ast.CallExpr:
+			items = append(items, "call "+s.src(x))
+		case *ast.IfStmt:
+			items = append(items, "if "+s.src(x.Cond))
+		case *ast.RangeStmt:
+			items = append(items, "range "+s.src(x.X))
+		case *ast.ReturnStmt:
+			var xs []string
+			for _, r := range x.Results {
+				xs = append(xs, s.src(r))
+			}
+			items = append(items, strings.TrimSpace("return "+strings.Join(xs, ", ")))
+		case *ast.AssignStmt:
+			for i, l := range x.Lhs {
+				if _, ok := l.(*ast.SelectorExpr); ok && i < len(x.Rhs) {
+					items = append(items, "set "+s.src(l)+" "+x.Tok.String()+" "+s.src(x.Rhs[i]))
+				}
+			}
+		}
+		return true
+	})
+	e.stringList(leanName, "calls (with arguments), conditions, field stores and returns of `"+goName+"` in "+rel, items)
+}
+
+// c17MapLiteral lists the entries "key -> value" of the composite literal assigned to the package variable `name`.
+func c17MapLiteral(s *source, e *emitter, rel, name, leanName string) {
+	f := s.file(rel)
+	var items []string
+	found := false
+	if f != nil {
+		ast.Inspect(f, func(n ast.Node) bool {
+			vs, ok := n.(*ast.ValueSpec)
+			if !ok {
+				return true
+			}
+			for i, id := range vs.Names {
+				if id.Name == name && i < len(vs.Values) {
+					if cl, ok := vs.Values[i].(*ast.CompositeLit); ok {
+						found = true
+						for _, el := range cl.Elts {
+							if kv, ok := el.(*ast.KeyValueExpr); ok {
+								items = append(items, s.src(kv.Key)+" -> "+s.src(kv.Value))
+							}
+						}
+					}
+				}
+			}
+			return true
+		})
+	}
+	if !found {
+		e.errors = append(e.errors, "map literal "+name+" not found in "+rel)
+	}
+	e.stringList(leanName, "entries of `"+name+"` in "+rel, items)
+}
+
 func init() {
 	register("C17", func(s *source, e *emitter) {
 		const cf = "core/conf/config.go"
@@ -78,5 +147,50 @@ func init() {
 		c17SwitchCases(s, e, uf, "convertTypeFromString", "convertTypeCases")
 		e.shapeDef(s, "core/jsonx/json.go", "unmarshalUseNumber", "useNumberShape")
 		e.shapeDef(s, "core/mapping/jsonunmarshaler.go", "unmarshalJsonBytes", "unmarshalJsonBytesShape")
+		// the mapping-level entry points and what they forward
+		const jf = "core/mapping/jsonunmarshaler.go"
+		const yf = "core/mapping/yamlunmarshaler.go"
+		const tf = "core/mapping/tomlunmarshaler.go"
+		const mf = "core/mapping/unmarshaler.go"
+		const xf = "core/jsonx/json.go"
+		c17Detail(s, e, jf, "UnmarshalJsonBytes", "mJsonBytes")
+		c17Detail(s, e, jf, "UnmarshalJsonReader", "mJsonReader")
+		c17Detail(s, e, jf, "UnmarshalJsonMap", "mJsonMap")
+		c17Detail(s, e, jf, "getJsonUnmarshaler", "mGetJsonUnmarshaler")
+		c17Detail(s, e, jf, "unmarshalJsonBytes", "mUnmarshalJsonBytes")
+		c17Detail(s, e, jf, "unmarshalJsonReader", "mUnmarshalJsonReader")
+		c17Detail(s, e, yf, "UnmarshalYamlBytes", "mYamlBytes")
+		c17Detail(s, e, yf, "UnmarshalYamlReader", "mYamlReader")
+		c17Detail(s, e, tf, "UnmarshalTomlBytes", "mTomlBytes")
+		c17Detail(s, e, tf, "UnmarshalTomlReader", "mTomlReader")
+		c17Detail(s, e, mf, "NewUnmarshaler", "mNewUnmarshaler")
+		c17Detail(s, e, mf, "Unmarshaler.Unmarshal", "mUnmarshal")
+		c17Detail(s, e, mf, "WithStringValues", "optStringValues")
+		c17Detail(s, e, mf, "WithCanonicalKeyFunc", "optCanonicalKey")
+		c17Detail(s, e, mf, "WithFromArray", "optFromArray")
+		c17Detail(s, e, mf, "WithOpaqueKeys", "optOpaqueKeys")
+		c17Detail(s, e, mf, "WithDefault", "optDefault")
+		c17SwitchCases(s, e, mf, "Unmarshaler.processFieldPrimitiveWithJSONNumber", "jsonNumberCases")
+		c17SwitchCases(s, e, mf, "Unmarshaler.processFieldWithEnvValue", "envValueCases")
+		c17Detail(s, e, mf, "readKeys", "mReadKeys")
+		c17Detail(s, e, mf, "getValueWithChainedKeys", "mChainedKeys")
+		c17Detail(s, e, xf, "Unmarshal", "xUnmarshal")
+		c17Detail(s, e, xf, "UnmarshalFromReader", "xUnmarshalFromReader")
+		c17Detail(s, e, xf, "UnmarshalFromString", "xUnmarshalFromString")
+		c17Detail(s, e, xf, "unmarshalUseNumber", "xUseNumber")
+		// conf: the loaders and the file-level API
+		c17Detail(s, e, cf, "Load", "cLoad")
+		c17Detail(s, e, cf, "LoadConfig", "cLoadConfig")
+		c17Detail(s, e, cf, "MustLoad", "cMustLoad")
+		c17Detail(s, e, cf, "FillDefault", "cFillDefault")
+		c17Detail(s, e, cf, "LoadFromJsonBytes", "cLoadJson")
+		c17Detail(s, e, cf, "LoadFromYamlBytes", "cLoadYaml")
+		c17Detail(s, e, cf, "LoadFromTomlBytes", "cLoadToml")
+		c17Detail(s, e, "core/conf/options.go", "UseEnv", "cUseEnv")
+		c17MapLiteral(s, e, cf, "loaders", "cLoaders")
+		c17Detail(s, e, ef, "convertKeyToString", "eConvertKey")
+		c17Detail(s, e, ef, "convertNumberToJsonNumber", "eConvertNumber")
+		c17Detail(s, e, ef, "convertSlice", "eConvertSlice")
+		c17Detail(s, e, ef, "encodeToJSON", "eEncodeToJSON")
 	})
 }
